@@ -22,6 +22,25 @@ def loadLayout (dir : String) (name : String) : IO (Option Driver.LayoutProgs) :
   | some cp, some op => return some ⟨name, cp, op, (f.splitOn "\n").filter (· ≠ "")⟩
   | _, _ => return none
 
+def readLines (path : String) : IO (List String) := do
+  let s ← IO.FS.readFile path
+  return (s.splitOn "\n").filter (· ≠ "")
+
+def loadData (dir : String) (name : String) (periodic : List (String × List Nat)) : IO (Option LayoutData) := do
+  let some L ← loadLayout dir name | return none
+  let consts := (← readLines s!"{dir}/{name}.consts.txt").filterMap fun l =>
+    match l.splitOn " " with
+    | [k, v] => (Felt.natOfHex? v).map fun n => (k, n)
+    | _ => none
+  let blines ← if name == "dynamic" then pure [] else readLines s!"{dir}/{name}.builtins.txt"
+  let builtins := blines.filterMap fun l =>
+    match (l.splitOn " ").map String.toNat? with
+    | [some a, some b, some c] => some (a, b, c)
+    | _ => none
+  let ief ← readLines s!"{dir}/{name}.interaction.txt"
+  return some { name := name, consts := consts, builtins := builtins, gvFields := L.gvFields, interactionFields := ief,
+                composition := L.composition, oods := L.oods, periodic := periodic }
+
 def main (args : List String) : IO UInt32 := do
   let stdin ← IO.getStdin
   let stdout ← IO.getStdout
@@ -33,10 +52,18 @@ def main (args : List String) : IO UInt32 := do
       let mut ctx : Driver.Ctx := {}
       match rest with
       | [dir, names] =>
+        let periodic := (← readLines s!"{dir}/periodic.txt").filterMap fun l =>
+          match l.splitOn " " with
+          | [k, v] => ((v.splitOn ",").mapM Felt.natOfHex?).map fun cs => (k, cs)
+          | _ => none
         for n in names.splitOn "," do
           match ← loadLayout dir n with
           | some l => ctx := { ctx with layouts := l :: ctx.layouts }
           | none => IO.eprintln s!"cannot parse translated programs of layout {n}"; return 3
+          if n != "dynamic" then
+            match ← loadData dir n periodic with
+            | some d => ctx := { ctx with data := d :: ctx.data }
+            | none => IO.eprintln s!"cannot load layout data of {n}"; return 3
       | _ => pure ()
       loop stdin stdout (Driver.answer ctx H (stone == "stone6"))
       return 0
